@@ -1,11 +1,26 @@
 import Rtcm.Model.Df
 import Rtcm.Gen.DfTable
+import Rtcm.Proofs.DfQuant
+import Rtcm.Props.C08
 /-!
 # C11  Quantisation picks the nearest representable value
-(under construction: table well-formedness instantiation; round-trip theorems follow)
+
+For a float-typed scaled field `s` with `wf s` (the same Boolean predicate as C08, `DfWf.wf`) and a
+finite float input `v` (given by its bit pattern), let `r = fl(res)`, `b = fl(bias)` be the rounded
+constants and `t = (v - b)/r` the exact rational grid coordinate. If `t` lies in the field's
+representable signed range `[svLo s, svHi s]` then
+
+* `quantise_eq`        : `Df.quantise` succeeds and puts `Bits.ofInt w (kOf s bits)`;
+* `quantise_neighbour` : `|k - t| ≤ 1/2 + delta s` with the explicit `delta s < 1/2`
+                         (a few units of `2^-p·2^len`), hence `k = ⌊t⌋ ∨ k = ⌈t⌉`;
+                         exact round-half-away is *not* claimed at (or within `delta s` of) the
+                         half-way points, where the three float roundings of the encoder decide;
+* `inrange_no_wrap`    : `k` is one of the readings of the field, `Bits.ofInt` does not wrap;
+* `quantise_error`     : `|value(dequantise k) - v| ≤ r/2 + slack s`;
+* `quantise_monotone`  : `v ≤ v' → k ≤ k'`.
 -/
 namespace Rtcm.C11
-open Rtcm.Schema Rtcm.Bits
+open Rtcm.Schema Rtcm.Bits Rtcm.Df Rtcm.SoftFloat Rtcm.DfWf Rtcm.DfLaws
 
 /-- structural well-formedness of a `df!` row -/
 def wfBasic (s : DfSpec) : Bool :=
@@ -13,5 +28,234 @@ def wfBasic (s : DfSpec) : Bool :=
   (s.it.w == 8 || s.it.w == 16 || s.it.w == 32 || s.it.w == 64)
 
 theorem table_wfBasic : Gen.dfTable.all wfBasic = true := by decide +kernel
+
+/-- the same predicate as in C08 -/
+abbrev wf (s : DfSpec) : Bool := DfWf.wf s
+
+theorem table_wf : Gen.dfTable.all wf = true := C08.table_wf
+
+/-- the finite value denoted by an IEEE bit pattern of the field's float type -/
+def valOf (s : DfSpec) (bits : Nat) : ℚ := (ofBits (fmtOf s.dt) bits).toRat
+
+/-- exact grid coordinate `t = (v - b)/r` with the rounded constants -/
+def tOf (s : DfSpec) (bits : Nat) : ℚ := (valOf s bits - biasVal s) / resVal s
+
+/-- the integer the encoder computes (rational model of the `df!` encode body) -/
+def kOf (s : DfSpec) (bits : Nat) : Int :=
+  qk (fmtOf s.dt) s.bias.isSome (resVal s) (biasVal s) (valOf s bits)
+
+/-- `δ(s) = u·K(1+u) + u·K + u·(K+1)`, `u = 2^-p`, `K = 2^len` -/
+def delta (s : DfSpec) : ℚ := deltaNum (num (fmtOf s.dt) s.len (resVal s) (biasVal s))
+
+/-- `slack(s) = δ(s)·r + u·(M1 + M2)`, `M1 = K·r`, `M2 = M1(1+u) + b` -/
+def slack (s : DfSpec) : ℚ := slackNum (num (fmtOf s.dt) s.len (resVal s) (biasVal s)) (resVal s)
+
+/-- admissible input: a finite float whose grid coordinate is within the signed range of the field -/
+structure Input (s : DfSpec) (bits : Nat) : Prop where
+  finite : (ofBits (fmtOf s.dt) bits).isFinite = true
+  lo : ((svLo s : Int) : ℚ) ≤ tOf s bits
+  hi : tOf s bits ≤ ((svHi s : Int) : ℚ)
+
+private theorem wf_parts {s : DfSpec} (hw : wf s = true) (hf : s.dt.isFloat = true) :
+    DfWf.wfBasic s = true ∧ wfFlt s = true := by
+  unfold wf DfWf.wf at hw
+  simp only [Bool.and_eq_true, hf, if_true] at hw
+  exact ⟨hw.1.1, hw.2⟩
+
+private theorem sv_bounds {s : DfSpec} (hl : 1 ≤ s.len) :
+    -((2 : Int) ^ s.len) ≤ svLo s ∧ svHi s ≤ (2 : Int) ^ s.len ∧
+      (s.it.kind = .u → svLo s = 0) := by
+  obtain ⟨l, hl'⟩ : ∃ l, s.len = l + 1 := ⟨s.len - 1, by omega⟩
+  unfold svLo svHi
+  rw [hl']
+  have hp : (0 : Int) < 2 ^ l := by positivity
+  have h2 : (2 : Int) ^ (l + 1) = 2 * 2 ^ l := by ring
+  simp only [Nat.add_sub_cancel]
+  rw [h2]
+  generalize (2 : Int) ^ l = P at *
+  rcases hk : s.it.kind <;> simp <;> omega
+
+private theorem carrierVal_ofInt {s : DfSpec} {k : Int} (hb : DfWf.wfBasic s = true)
+    (h1 : (carrierRange s.it).1 ≤ k) (h2 : k ≤ (carrierRange s.it).2) :
+    carrierVal s.it (Bits.ofInt s.it.w k) = k := by
+  unfold DfWf.wfBasic at hb
+  simp only [Bool.and_eq_true, Bool.or_eq_true, beq_iff_eq, decide_eq_true_eq] at hb
+  obtain ⟨-, hw⟩ := hb
+  unfold carrierVal
+  unfold carrierRange at h1 h2
+  rcases hs : s.it.signed <;> rw [hs] at h1 h2 <;>
+    rcases hw with ((hw | hw) | hw) | hw <;> rw [hw] at h1 h2 ⊢ <;>
+    simp [Bits.ofInt, Bits.toInt] at h1 h2 ⊢ <;> omega
+
+/-- everything the theorems below need, derived once -/
+private theorem core {s : DfSpec} {bits : Nat} (hw : wf s = true) (hf : s.dt.isFloat = true)
+    (hin : Input s bits) :
+    ∃ re, FltOK s re (resVal s) (biasVal s) ∧
+      (ofBits (fmtOf s.dt) bits).Val (valOf s bits) ∧
+      valOf s bits - biasVal s = tOf s bits * resVal s ∧
+      |tOf s bits| ≤ (num (fmtOf s.dt) s.len (resVal s) (biasVal s)).K ∧
+      (s.bias.isSome = true → biasVal s ≤ valOf s bits) ∧
+      (s.bias.isSome = false → biasVal s = 0) := by
+  obtain ⟨hbas, hflt⟩ := wf_parts hw hf
+  obtain ⟨re, ok⟩ := wfFlt_spec' hflt
+  obtain ⟨hl1, -⟩ := wfBasic_spec hbas
+  have hr := ok.numOK.r_pos
+  have ht : valOf s bits - biasVal s = tOf s bits * resVal s := by
+    unfold tOf; field_simp
+  obtain ⟨b1, b2, b3⟩ := sv_bounds (s := s) hl1
+  refine ⟨re, ok, ofBits_val _ _ hin.finite, ht, ?_, ?_, ?_⟩
+  · rw [num_K, abs_le]
+    have c1 : ((-((2 : Int) ^ s.len) : Int) : ℚ) ≤ ((svLo s : Int) : ℚ) := by exact_mod_cast b1
+    have c2 : ((svHi s : Int) : ℚ) ≤ (((2 : Int) ^ s.len : Int) : ℚ) := by exact_mod_cast b2
+    push_cast at c1 c2 ⊢
+    exact ⟨le_trans c1 hin.lo, le_trans hin.hi c2⟩
+  · intro h
+    obtain ⟨be, hbe⟩ := Option.isSome_iff_exists.mp h
+    have hlo := hin.lo
+    rw [b3 (ok.bias_some be hbe).2] at hlo
+    have : 0 ≤ tOf s bits * resVal s := mul_nonneg (by exact_mod_cast hlo) hr.le
+    linarith
+  · intro h
+    exact ok.bias_none (Option.isNone_iff_eq_none.mp (Option.isSome_eq_false_iff.mp h))
+
+/-- the numeric slack is small: `δ(s) < 1/2` -/
+theorem delta_lt_half (s : DfSpec) (hw : wf s = true) (hf : s.dt.isFloat = true) :
+    delta s < 1 / 2 := by
+  obtain ⟨-, hflt⟩ := wf_parts hw hf
+  obtain ⟨re, ok⟩ := wfFlt_spec' hflt
+  exact ok.numOK.hdq
+
+/-- the encoder's integer is within `1/2 + δ(s)` of the exact grid coordinate, hence it is the
+floor or the ceiling of it -/
+theorem quantise_neighbour (s : DfSpec) (bits : Nat) (hw : wf s = true)
+    (hf : s.dt.isFloat = true) (hin : Input s bits) :
+    |(kOf s bits : ℚ) - tOf s bits| ≤ 1 / 2 + delta s ∧
+      (kOf s bits = ⌊tOf s bits⌋ ∨ kOf s bits = ⌈tOf s bits⌉) := by
+  obtain ⟨re, ok, hv, ht, hK, hge, hb0⟩ := core hw hf hin
+  obtain ⟨-, -, -, hk⟩ := quant_chain ok.numOK s.bias.isSome hb0 _ _ ht hK
+  refine ⟨hk, floor_or_ceil_of_abs_lt_one ?_⟩
+  have := delta_lt_half s hw hf
+  unfold delta at this
+  exact lt_of_le_of_lt hk (by linarith)
+
+/-- the hypotheses are satisfiable: `df011` (f64, unsigned 24 bits, res 0.02) on `v = 1234.56`;
+`df025` (f64, signed 38 bits, res 1e-4) on `v = -1234.5678`;
+`df564` (f32, unsigned 16 bits, res 0.01, bias 1900.0) on `v = 2000.0` -/
+example : wf Gen.df_df011 = true ∧ Gen.df_df011.dt.isFloat = true ∧
+    Input Gen.df_df011 4653144467747100426 :=
+  ⟨by decide +kernel, by decide +kernel, ⟨by decide +kernel, by decide +kernel, by decide +kernel⟩⟩
+example : wf Gen.df_df025 = true ∧ Gen.df_df025.dt.isFloat = true ∧
+    Input Gen.df_df025 13876516538906639021 :=
+  ⟨by decide +kernel, by decide +kernel, ⟨by decide +kernel, by decide +kernel, by decide +kernel⟩⟩
+example : wf Gen.df_df564 = true ∧ Gen.df_df564.dt.isFloat = true ∧
+    Input Gen.df_df564 1157234688 :=
+  ⟨by decide +kernel, by decide +kernel, ⟨by decide +kernel, by decide +kernel, by decide +kernel⟩⟩
+
+/-- the encoder's integer is one of the field's readings; `Bits.ofInt` does not wrap -/
+theorem inrange_no_wrap (s : DfSpec) (bits : Nat) (hw : wf s = true)
+    (hf : s.dt.isFloat = true) (hin : Input s bits) :
+    DfWf.InRange s (kOf s bits) ∧
+      carrierVal s.it (Bits.ofInt s.it.w (kOf s bits)) = kOf s bits := by
+  obtain ⟨hk, -⟩ := quantise_neighbour s bits hw hf hin
+  have hd := delta_lt_half s hw hf
+  obtain ⟨h1, h2⟩ := abs_le.mp hk
+  have hr : DfWf.InRange s (kOf s bits) := by
+    constructor
+    · have : ((svLo s : Int) : ℚ) - 1 < (kOf s bits : ℚ) := by linarith [hin.lo]
+      have : svLo s - 1 < kOf s bits := by exact_mod_cast this
+      omega
+    · have : (kOf s bits : ℚ) < ((svHi s : Int) : ℚ) + 1 := by linarith [hin.hi]
+      have : kOf s bits < svHi s + 1 := by exact_mod_cast this
+      omega
+  obtain ⟨hbas, -⟩ := wf_parts hw hf
+  obtain ⟨c1, c2⟩ := inRange_carrier hbas hr
+  exact ⟨hr, carrierVal_ofInt hbas c1 c2⟩
+
+/-- `Df.quantise` on an admissible input succeeds with the model integer -/
+theorem quantise_eq (s : DfSpec) (bits : Nat) (hw : wf s = true)
+    (hf : s.dt.isFloat = true) (hin : Input s bits) :
+    Df.quantise s (.flt bits) = .ok (Bits.ofInt s.it.w (kOf s bits)) := by
+  obtain ⟨re, ok, hv, ht, hK, hge, hb0⟩ := core hw hf hin
+  obtain ⟨n1, n2, n3, -⟩ := quant_chain ok.numOK s.bias.isSome hb0 _ _ ht hK
+  have hbias : ∀ be, s.bias = some be →
+      evalF (fmtOf s.dt) be = .fin false (biasVal s) ∧ 0 ≤ biasVal s :=
+    fun be h => ⟨(ok.bias_some be h).1, ok.numOK.b_nonneg⟩
+  rw [quantise_flt s hf re _ _ ok.res_eq ok.res_val ok.numOK.r_pos ok.round_eq hbias _ _ hv hge
+    (fun _ => n1) n2 n3]
+  obtain ⟨hr, -⟩ := inrange_no_wrap s bits hw hf hin
+  obtain ⟨hbas, -⟩ := wf_parts hw hf
+  obtain ⟨c1, c2⟩ := inRange_carrier hbas hr
+  show Res.ok (Bits.ofInt s.it.w (clampI (kOf s bits) _ _)) = _
+  rw [clampI_of_mem c1 c2]
+
+/-- decoding what was encoded lands within half a resolution step (plus explicit slack) of the
+input -/
+theorem quantise_error (cfg : Cfg) (s : DfSpec) (bits : Nat) (hw : wf s = true)
+    (hf : s.dt.isFloat = true) (hin : Input s bits) :
+    ∃ bits', Df.dequantise cfg s (kOf s bits) = .ok (.flt bits') ∧
+      (ofBits (fmtOf s.dt) bits').isFinite = true ∧
+      |valOf s bits' - valOf s bits| ≤ resVal s / 2 + slack s := by
+  obtain ⟨re, ok, hv, ht, hK, hge, hb0⟩ := core hw hf hin
+  obtain ⟨hk, -⟩ := quantise_neighbour s bits hw hf hin
+  obtain ⟨hr, -⟩ := inrange_no_wrap s bits hw hf hin
+  obtain ⟨hbas, -⟩ := wf_parts hw hf
+  obtain ⟨hl1, -⟩ := wfBasic_spec hbas
+  have nok := ok.numOK
+  have hKk := inRange_abs hl1 hr
+  have hbias : ∀ be, s.bias = some be →
+      evalF (fmtOf s.dt) be = .fin false (biasVal s) ∧ 0 ≤ biasVal s :=
+    fun be h => ⟨(ok.bias_some be h).1, nok.b_nonneg⟩
+  have hsvp : (kOf s bits).natAbs < 2 ^ (fmtOf s.dt).p :=
+    lt_of_le_of_lt (inRange_natAbs hl1 hr) (Nat.pow_lt_pow_right (by norm_num) ok.len_lt)
+  have hbk : s.bias.isSome = true → 0 ≤ kOf s bits := by
+    intro h
+    obtain ⟨be, hbe⟩ := Option.isSome_iff_exists.mp h
+    exact inRange_u_nonneg (ok.bias_some be hbe).2 hr
+  obtain ⟨no1, no2, e1, a1, e2, a2⟩ := deq_chain nok s.bias.isSome hb0 (kOf s bits) hKk
+  obtain ⟨X, hdq, hrt, hXv, -⟩ := dequantise_flt cfg s hf re _ _ ok.res_eq ok.res_val nok.r_pos
+    nok.r_norm hbias _ hsvp hbk no1 (fun _ => no2)
+  refine ⟨_, hdq, by rw [hrt]; exact hXv.isFinite, ?_⟩
+  have hval : valOf s (toBits (fmtOf s.dt) X)
+      = dx (fmtOf s.dt) s.bias.isSome (resVal s) (biasVal s) (kOf s bits) := by
+    unfold valOf; rw [hrt]; exact hXv.toRat
+  rw [hval]
+  unfold slack slackNum
+  rw [num_u]
+  have hr0 := nok.r_pos
+  have e1' := abs_le.mp e1
+  have e2' := abs_le.mp e2
+  have hk' := abs_le.mp hk
+  unfold delta at hk'
+  generalize dx (fmtOf s.dt) s.bias.isSome (resVal s) (biasVal s) (kOf s bits) = X' at *
+  generalize dy (fmtOf s.dt) (resVal s) (kOf s bits) = Y at *
+  have hv' : valOf s bits = tOf s bits * resVal s + biasVal s := by linarith
+  rw [hv', abs_le]
+  constructor <;> nlinarith [e1'.1, e1'.2, e2'.1, e2'.2, hk'.1, hk'.2,
+    mul_le_mul_of_nonneg_right hk'.1 hr0.le, mul_le_mul_of_nonneg_right hk'.2 hr0.le]
+
+/-- quantisation is monotone in the input value -/
+theorem quantise_monotone (s : DfSpec) (bits bits' : Nat) (hw : wf s = true)
+    (hf : s.dt.isFloat = true) (h : valOf s bits ≤ valOf s bits') :
+    kOf s bits ≤ kOf s bits' := by
+  obtain ⟨-, hflt⟩ := wf_parts hw hf
+  obtain ⟨re, ok⟩ := wfFlt_spec' hflt
+  have hp1 : 1 ≤ (fmtOf s.dt).p := by have := (good_fmtOf s.dt).p_ge; omega
+  exact qk_mono hp1 ok.numOK.r_pos _ h
+
+example : valOf Gen.df_df011 4653144467747100426 ≤ valOf Gen.df_df011 4653144511727565537 := by
+  decide +kernel
+
+/-- monotonicity stated on the encoder's outputs: both inputs admissible, `v ≤ v'`; then both
+calls succeed, with integers `k ≤ k'` -/
+theorem quantise_monotone' (s : DfSpec) (bits bits' : Nat) (hw : wf s = true)
+    (hf : s.dt.isFloat = true) (hin : Input s bits) (hin' : Input s bits')
+    (h : valOf s bits ≤ valOf s bits') :
+    ∃ k k' : Int, Df.quantise s (.flt bits) = .ok (Bits.ofInt s.it.w k) ∧
+      Df.quantise s (.flt bits') = .ok (Bits.ofInt s.it.w k') ∧
+      carrierVal s.it (Bits.ofInt s.it.w k) = k ∧ carrierVal s.it (Bits.ofInt s.it.w k') = k' ∧
+      k ≤ k' :=
+  ⟨_, _, quantise_eq s bits hw hf hin, quantise_eq s bits' hw hf hin',
+    (inrange_no_wrap s bits hw hf hin).2, (inrange_no_wrap s bits' hw hf hin').2,
+    quantise_monotone s bits bits' hw hf h⟩
 
 end Rtcm.C11
